@@ -69,12 +69,17 @@ func (b *Builder) Str(t types.Type) string {
 	case *types.Struct:
 		return b.structStr(t)
 	case *types.Map:
-		return "map[" + b.Str(t.Key()) + "]" + b.realStr(t.Elem())
+		return "map[" + b.realStr(t.Key()) + "]" + b.realStr(t.Elem())
 	case *types.Array:
 		return "[" + strconv.Itoa(int(t.Len())) + "]" + b.realStr(t.Elem())
 	case *types.Chan:
 		_, s := ChanDir(t.Dir())
-		return s + " " + b.realStr(t.Elem())
+		elem := b.realStr(t.Elem())
+		if t.Dir() == types.SendRecv && strings.HasPrefix(elem, "<-") {
+			// chan (<-chan T): without parentheses the arrow would bind to the outer chan
+			return s + " (" + elem + ")"
+		}
+		return s + " " + elem
 	case *types.Named:
 		name := b.namedStr(t)
 		if pkg := t.Obj().Pkg(); pkg != nil {
@@ -125,6 +130,10 @@ func (b *Builder) reflectTypeArgBaseString(t types.Type) string {
 		return name
 	case *types.Interface:
 		return b.interfaceStr(t)
+	case *types.Struct:
+		return b.reflectTypeArgStructString(t)
+	case *types.Signature:
+		return b.reflectTypeArgFuncString(t)
 	case *types.Pointer:
 		elem := t.Elem()
 		if b.TFlag(elem)&abi.TFlagExtraStar != 0 {
@@ -136,12 +145,83 @@ func (b *Builder) reflectTypeArgBaseString(t types.Type) string {
 	case *types.Array:
 		return "[" + strconv.Itoa(int(t.Len())) + "]" + b.reflectTypeArgString(t.Elem())
 	case *types.Map:
-		return "map[" + b.reflectTypeArgBaseString(t.Key()) + "]" + b.reflectTypeArgString(t.Elem())
+		return "map[" + b.reflectTypeArgString(t.Key()) + "]" + b.reflectTypeArgString(t.Elem())
 	case *types.Chan:
 		_, s := ChanDir(t.Dir())
 		return s + " " + b.reflectTypeArgString(t.Elem())
 	}
 	return types.TypeString(t, reflectTypeArgPkgPath)
+}
+
+// reflectTypeArgStructString writes a struct type inside the brackets of a
+// generic instance the way the Go linker names it: reflect's spacing,
+// unexported field names qualified by their package, tags kept.
+func (b *Builder) reflectTypeArgStructString(t *types.Struct) string {
+	n := t.NumFields()
+	if n == 0 {
+		return "struct {}"
+	}
+	repr := make([]byte, 0, 64)
+	repr = append(repr, "struct {"...)
+	for i := 0; i < n; i++ {
+		if i > 0 {
+			repr = append(repr, ';')
+		}
+		repr = append(repr, ' ')
+		f := t.Field(i)
+		if !f.Embedded() {
+			if !f.Exported() && f.Pkg() != nil {
+				repr = append(repr, reflectTypeArgPkgPath(f.Pkg())...)
+				repr = append(repr, '.')
+			}
+			repr = append(repr, f.Name()...)
+			repr = append(repr, ' ')
+		}
+		repr = append(repr, b.reflectTypeArgString(f.Type())...)
+		if tag := t.Tag(i); tag != "" {
+			repr = append(repr, ' ')
+			repr = append(repr, strconv.Quote(tag)...)
+		}
+	}
+	repr = append(repr, " }"...)
+	return string(repr)
+}
+
+// reflectTypeArgFuncString writes a func type inside the brackets of a generic
+// instance; its parameter and result types follow the same spelling.
+func (b *Builder) reflectTypeArgFuncString(t *types.Signature) string {
+	repr := make([]byte, 0, 64)
+	repr = append(repr, "func("...)
+	in := t.Params().Len()
+	for i := 0; i < in; i++ {
+		if i > 0 {
+			repr = append(repr, ", "...)
+		}
+		it := t.Params().At(i).Type()
+		if t.Variadic() && i == in-1 {
+			repr = append(repr, "..."...)
+			repr = append(repr, b.reflectTypeArgString(types.Unalias(it).(*types.Slice).Elem())...)
+		} else {
+			repr = append(repr, b.reflectTypeArgString(it)...)
+		}
+	}
+	repr = append(repr, ')')
+	out := t.Results().Len()
+	if out == 1 {
+		repr = append(repr, ' ')
+	} else if out > 1 {
+		repr = append(repr, " ("...)
+	}
+	for i := 0; i < out; i++ {
+		if i > 0 {
+			repr = append(repr, ", "...)
+		}
+		repr = append(repr, b.reflectTypeArgString(t.Results().At(i).Type())...)
+	}
+	if out > 1 {
+		repr = append(repr, ')')
+	}
+	return string(repr)
 }
 
 func reflectTypeArgPkgPath(pkg *types.Package) string {
@@ -151,7 +231,7 @@ func reflectTypeArgPkgPath(pkg *types.Package) string {
 	if pkg.Path() == "command-line-arguments" && pkg.Name() != "" {
 		return pkg.Name()
 	}
-	return PathOf(pkg)
+	return ReflectPathOf(pkg)
 }
 
 func (b *Builder) structStr(t *types.Struct) string {
@@ -169,6 +249,10 @@ func (b *Builder) structStr(t *types.Struct) string {
 			repr = append(repr, ' ')
 		}
 		repr = append(repr, b.realStr(f.Type())...)
+		if tag := t.Tag(i); tag != "" {
+			repr = append(repr, ' ')
+			repr = append(repr, strconv.Quote(tag)...)
+		}
 	}
 	if n > 0 {
 		repr = append(repr, ' ')
@@ -241,7 +325,8 @@ func (b *Builder) TFlag(t types.Type) (flag abi.TFlag) {
 	case *types.Basic:
 		flag |= abi.TFlagNamed
 	case *types.Named:
-		return b.TFlag(t.Underlying()) | abi.TFlagNamed
+		// a declared pointer type (type P *T) is written by its name: no extra star
+		return b.TFlag(t.Underlying())&^abi.TFlagExtraStar | abi.TFlagNamed
 	case *types.Struct:
 		if IsClosure(t) {
 			flag |= abi.TFlagClosure
